@@ -133,9 +133,9 @@ def h_verbatim(c: int, pos: int, h: str) -> bool:
     return place(c, pos, h) == subst(place(c, pos, MARK), MARK, h)
 
 
-@harness("C04", pre=lambda B, k, h: 0 <= k <= 5 and len(h) <= B["L"],
+@harness("C04", pre=lambda B, k, h: 0 <= k <= 7 and len(h) <= B["L"],
          bounds={"quick": {"L": 2}, "thorough": {"L": 3}},
-         shard={"k": range(6)},
+         shard={"k": range(8)},
          sym=["h: str over all code points, len <= L"], sel=["k: explicit expected strings for script/style/HTML/attribute cases"],
          targets=["htmltools._core.Tag.get_html_string"],
          timeout={"quick": 150, "thorough": 900})
@@ -150,4 +150,10 @@ def h_verbatim_explicit(k: int, h: str) -> bool:
         return Tag("div", HTML(h)).get_html_string() == "<div>" + h + "</div>"
     if k == 4:
         return Tag("a", href=HTML(h), x="<").get_html_string() == '<a href="' + h + '" x="&lt;"></a>'
+    if k == 6:
+        from htmltools import HTMLDependency, MetadataNode
+        return Tag("script", MetadataNode(), h, HTMLDependency("d", "1.0")).get_html_string() == "<script>" + h + "</script>"
+    if k == 7:
+        from htmltools import MetadataNode
+        return Tag("style", h, MetadataNode(), _add_ws=False).get_html_string() == "<style>" + h + "</style>"
     return Tag("div", RH(h), "<").get_html_string() == "<div>\n  " + h + "&lt;\n</div>"
